@@ -455,7 +455,115 @@ def strand_table(prog, ctx, tag):
     ctx.floor(tag, "strand cases evaluated", n, 30)
 
 
+IG = "src/intron_graph.py"
+
+
+def n7(prog, ctx):
+    """Every intron of a novel model is an intron some read has: the vertices of the intron graph (keys of clustered_introns) and the
+    substitutes of the correction map are introns collected from the reads.  The annotation may decide WHETHER a read intron is kept
+    (`intron in self.known_introns`), it never supplies the intron itself."""
+    from ..engine import taint
+    cls = prog.cls(IG, "IntronCollector")
+    meths = prog.methods_of(cls, inherited=False)
+    init = meths.get("__init__")
+    annot = {"self.known_introns"}
+    for st in (walk_no_nested(init) if init is not None else ()):
+        if isinstance(st, ast.Assign) and len(st.targets) == 1 and (dotted(st.targets[0]) or "").startswith("self.") \
+                and any((dotted(x) or "") in annot for x in ast.walk(st.value) if isinstance(x, ast.Attribute)):
+            annot.add(dotted(st.targets[0]))
+    if init is None or not any("known_introns" in src(x) for x in walk_no_nested(init)):
+        ctx.undecided("N7", cls, "IntronCollector", "the collector's set of annotated introns (known_introns) not found")
+        return
+    sources = {a: {"annotation"} for a in annot}
+    n = 0
+    reported = set()
+    for name in sorted(meths):
+        if name == "__init__":
+            continue
+        f = prog.func_inlined(IG, "IntronCollector." + name)
+        sites = [st for st in walk_no_nested(f) if isinstance(st, (ast.Assign, ast.AugAssign)) and any(
+            isinstance(t, ast.Subscript) and src(t.value) in ("self.clustered_introns", "self.intron_correction_map")
+            for t in (st.targets if isinstance(st, ast.Assign) else [st.target]))]
+        if not sites:
+            continue
+        n += len(sites)
+
+        def look(st, env, name=name):
+            if not any(st is x for x in sites):
+                return
+            for t in (st.targets if isinstance(st, ast.Assign) else [st.target]):
+                if not isinstance(t, ast.Subscript):
+                    continue
+                what = []
+                if src(t.value) == "self.clustered_introns" and "annotation" in taint.influence(t.slice, env):
+                    what.append(("vertex", t.slice))
+                if src(t.value) == "self.intron_correction_map" and isinstance(st, ast.Assign) and "annotation" in taint.influence(st.value, env):
+                    what.append(("substitute", st.value))
+                for kind, e in what:
+                    if (st.lineno, kind) in reported:
+                        continue
+                    reported.add((st.lineno, kind))
+                    ctx.fail("N7", st, "IntronCollector." + name, "%s from annotation: %s" % (kind, src(st)[:70]),
+                             "the %s %s is taken from the collector's annotated introns, not from the introns collected from reads: a read "
+                             "intron can be replaced by an annotated intron that no read has, and the novel model built through it "
+                             "contains an intron without read support" % (kind, src(e)[:40]))
+        for pth in flow.paths(f):
+            taint.run(pth, sources, on_stmt=look)
+    if not reported:
+        ctx.ok("N7", IG, "%d stores into clustered_introns / intron_correction_map take their intron from read-derived values only" % n)
+    ctx.floor("N7", "stores into the intron graph's vertex table / correction map", n, 5)
+
+
+def n8(prog, ctx):
+    """Whether a reported model is a near-duplicate of another one does not depend on where the two happen to stand in the model list: the
+    absorbing relation is not symmetric (the model with the longer terminal exons absorbs the shorter one), so every ordered pair has to
+    be examined.  In detect_similar_isoforms nothing derived from a model's POSITION in the storage selects the candidates compared with it."""
+    from ..engine.dataflow import dependency_roots
+    f = prog.func(GMC, "GraphBasedModelConstructor.detect_similar_isoforms")
+    storage = next((a.arg for a in f.args.args if a.arg != "self"), None)
+    outer = [l for l in walk_no_nested(f) if isinstance(l, ast.For) and not flow.enclosing_loops(l) and storage in {x.id for x in ast.walk(l.iter) if isinstance(x, ast.Name)}]
+    if len(outer) != 1:
+        ctx.undecided("N8", f, f._qualname, "no single outer loop over the model storage found")
+        return
+    lp = outer[0]
+    pos = set()
+    if isinstance(lp.iter, ast.Call) and call_name(lp.iter) == "enumerate" and isinstance(lp.target, ast.Tuple) and isinstance(lp.target.elts[0], ast.Name):
+        pos.add(lp.target.elts[0].id)
+    if isinstance(lp.iter, ast.Call) and call_name(lp.iter) == "range":
+        pos |= {x.id for x in ast.walk(lp.target) if isinstance(x, ast.Name)}
+    # counters advanced once per outer iteration
+    for st in lp.body:
+        if isinstance(st, ast.AugAssign) and isinstance(st.target, ast.Name) and isinstance(st.value, ast.Constant):
+            pos.add(st.target.id)
+    inner = [l for l in walk_no_nested(lp) if isinstance(l, ast.For) and l is not lp]
+    if not inner:
+        ctx.undecided("N8", lp, f._qualname, "no inner loop over the candidates found")
+        return
+    n = 0
+    for il in inner:
+        n += 1
+        exprs = [il.iter] + [g.test for x in walk_no_nested(il) if isinstance(x, ast.Continue) for g in flow.guards_of(x, stop=il)]
+        roots = set()
+        for e in exprs:
+            roots |= {r.split(".")[0] for r in dependency_roots(f, [e], at=il)} | {x.id for x in ast.walk(e) if isinstance(x, ast.Name)}
+        used = sorted(roots & pos)
+        if used:
+            ctx.fail("N8", il, f._qualname, "candidates selected by position: for ... in %s" % src(il.iter)[:60],
+                     "which models are compared with a model depends on %s, the model's position in the storage: a pair is then examined in "
+                     "one direction only, and of two models with the same intron chain that only differ in their ends the one that "
+                     "stands first is never absorbed by the later one - both are reported" % "/".join(used))
+        else:
+            ctx.ok("N8", "%s:%d" % (GMC, il.lineno), "candidates for a model are selected by their own properties, not by position")
+    ctx.floor("N8", "candidate loops of detect_similar_isoforms", n, 1)
+
+
 def run(prog, ctx):
+    ctx.rule("N8", "in detect_similar_isoforms neither the iterable of the inner (candidate) loop nor the tests that skip a candidate depend on "
+                   "the outer model's position in the storage (enumerate index, range variable, per-iteration counter)")
+    n8(prog, ctx)
+    ctx.rule("N7", "in IntronCollector no key stored into clustered_introns and no value stored into intron_correction_map is influenced "
+                   "(path-wise propagation, helpers expanded) by known_introns or an attribute derived from it")
+    n7(prog, ctx)
     ctx.rule("N1", "for every novel TranscriptModel construction the id suffix and the model type are assigned together and pair "
                    "nic<->novel_in_catalog / nnic<->novel_not_in_catalog; the nic branch is exactly the positive branch of a subset "
                    "test (all/any/set<=/issubset/issuperset idioms) of the model's own intron path against known_introns, whose only "
